@@ -146,7 +146,60 @@ func Load(c LoadConfig) (*Prog, error) {
 		}
 		return a.String() < b.String()
 	})
+	// embedded struct types: embeddedIn[outer][inner] (transitively), so that a rule written for a
+	// field of `outer` also sees it after the field was moved into a struct embedded in `outer`
+	embeddedIn = map[string]map[string]bool{}
+	for _, pkg := range p.Pkgs {
+		if pkg.Types == nil {
+			continue
+		}
+		sc := pkg.Types.Scope()
+		for _, name := range sc.Names() {
+			tn, ok := sc.Lookup(name).(*types.TypeName)
+			if !ok {
+				continue
+			}
+			st, ok := tn.Type().Underlying().(*types.Struct)
+			if !ok {
+				continue
+			}
+			for i := 0; i < st.NumFields(); i++ {
+				f := st.Field(i)
+				if !f.Embedded() {
+					continue
+				}
+				if derefStruct(f.Type()) == nil {
+					continue
+				}
+				if embeddedIn[name] == nil {
+					embeddedIn[name] = map[string]bool{}
+				}
+				embeddedIn[name][typeName(f.Type())] = true
+			}
+		}
+	}
+	for changed := true; changed; {
+		changed = false
+		for _, inner := range embeddedIn {
+			for in := range inner {
+				for in2 := range embeddedIn[in] {
+					if !inner[in2] {
+						inner[in2] = true
+						changed = true
+					}
+				}
+			}
+		}
+	}
 	return p, nil
+}
+
+// embeddedIn[outer][inner]: struct type `inner` is embedded (at any depth) in struct type `outer`.
+var embeddedIn map[string]map[string]bool
+
+// ownerIs: a field whose declaring struct is `owner` is a (possibly promoted) field of `want`.
+func ownerIs(owner, want string) bool {
+	return owner == want || embeddedIn[want][owner]
 }
 
 func fnPkg(fn *ssa.Function) *types.Package {
